@@ -170,7 +170,7 @@ class Res:
                 self.budget = True
             elif t == 'ESCAPED':
                 self.escaped = True
-            elif '=' in t and not t[0] in 'sx' and t.split('=', 1)[0].replace('_', '').isalnum():
+            elif '=' in t and t.split('=', 1)[0].replace('_', '').isalnum():
                 k, _, val = t.partition('=')
                 # "ck" may appear twice (trait + inherent): keep a list
                 if k in self.named:
